@@ -1,4 +1,4 @@
 from harness.corecheck import make
 MODULE = make("C10", ["CircusProofs/Props/C10.lean", "CircusProofs/Props/C10Wake.lean", "CircusProofs/Props/C10Fail.lean"],
               ["CircusProofs/Core/Pres.lean", "CircusProofs/Core/Generic.lean", "CircusProofs/Core/SlotFree.lean",
-               "CircusProofs/Core/SlotInv.lean", "CircusProofs/Core/WakeAttr.lean", "CircusProofs/Core/WakeDefs.lean", "CircusProofs/Core/WakePrim.lean", "CircusProofs/Core/WakeInv.lean", "CircusProofs/Core/WakeHeld.lean"])
+               "CircusProofs/Core/SlotInv.lean", "CircusProofs/Core/WakeAttr.lean", "CircusProofs/Core/WakeDefs.lean", "CircusProofs/Core/WakePrim.lean", "CircusProofs/Core/WakeInv.lean", "CircusProofs/Core/WakeHeld.lean", "CircusProofs/Core/StopRunE.lean"])
